@@ -413,23 +413,36 @@ func (c *Ctx) expandGuards(gs []Guard, fr *Frame, depth int) []Guard {
 	var out []Guard
 	for _, g := range gs {
 		call, ok := g.Cond.(*ssa.Call)
+		ri := 0 // which result of the helper is the predicate
+		if !ok {
+			// `v, ok := helper(args…)`: the predicate is one component of the result tuple
+			if ex, isEx := g.Cond.(*ssa.Extract); isEx {
+				if cl, isCall := ex.Tuple.(*ssa.Call); isCall {
+					call, ok, ri = cl, true, ex.Index
+				}
+			}
+		}
 		if !ok || !g.Polarity || depth > 2 {
 			out = append(out, g)
 			continue
 		}
 		h := call.Common().StaticCallee()
-		if h == nil || call.Common().IsInvoke() || !c.inModule(h) || len(h.Blocks) == 0 || h.Signature.Results().Len() != 1 {
+		if h == nil || call.Common().IsInvoke() || !c.inModule(h) || len(h.Blocks) == 0 || h.Signature.Results().Len() <= ri {
 			out = append(out, g)
 			continue
 		}
-		if b, isB := h.Signature.Results().At(0).Type().Underlying().(*types.Basic); !isB || b.Kind() != types.Bool {
+		if _, isEx := g.Cond.(*ssa.Extract); !isEx && h.Signature.Results().Len() != 1 {
+			out = append(out, g)
+			continue
+		}
+		if b, isB := h.Signature.Results().At(ri).Type().Underlying().(*types.Basic); !isB || b.Kind() != types.Bool {
 			out = append(out, g)
 			continue
 		}
 		var yes []*ssa.Return
 		eachInstr(h, func(in ssa.Instruction) {
-			if ret, ok := in.(*ssa.Return); ok {
-				if k, isK := ret.Results[0].(*ssa.Const); isK && k.Value != nil && !constant.BoolVal(k.Value) {
+			if ret, ok := in.(*ssa.Return); ok && len(ret.Results) > ri {
+				if k, isK := ret.Results[ri].(*ssa.Const); isK && k.Value != nil && !constant.BoolVal(k.Value) {
 					return
 				}
 				yes = append(yes, ret)
@@ -449,8 +462,8 @@ func (c *Ctx) expandGuards(gs []Guard, fr *Frame, depth int) []Guard {
 		}
 		hfr := &Frame{Fn: h, Site: call, Parent: base, Depth: d}
 		inner := guardsOfInstr(yes[0])
-		if _, isK := yes[0].Results[0].(*ssa.Const); !isK {
-			inner = append(inner, Guard{Cond: yes[0].Results[0], Polarity: true})
+		if _, isK := yes[0].Results[ri].(*ssa.Const); !isK {
+			inner = append(inner, Guard{Cond: yes[0].Results[ri], Polarity: true})
 		}
 		for i := range inner {
 			inner[i].Fr = hfr
